@@ -180,9 +180,108 @@ struct M {
     return "bad-op";
   }
 
+  // ---------------------------------------------------------------- observer level
+  static int lbl(const std::string& s) { return s == "-" ? -1 : (int)toI(s); }
+  NP N(int k, int l) { return l < 0 ? NP() : np[k][l]; }
+  EP E(int k, int l) { return l < 0 ? EP() : ep[k][l]; }
+  template<class V> static std::string labs(const V& v) { std::string s; for (auto& p : v) s += lab(p) + " "; return s; }
+  template<class It> static std::string oiter(std::unique_ptr<It> it) {
+    std::string s; for (it->start(); !it->end(); it->next()) s += lab(**it) + " "; return s;
+  }
+  // would a per-node iterator of observer o on object a dereference find()==end() ?
+  bool staleGid(Obs& o, const NP& a) { auto& m = Peek::Ng(o); auto it = m.find(a); return it != m.end() && !hasN(it->second); }
+
+  std::string obsOp(const Toks& t) {
+    const std::string& op = t[0];
+    int k = (int)toI(t[1]);
+    if (op == "o.copy") {
+      int j = k; k = (int)toI(t[2]);
+      if (!obs[j] || j == k) return "ub";
+      // vector operator[] with an id beyond the size would be undefined behaviour
+      for (auto& kv : Peek::Ng(*obs[j])) if (kv.second >= Peek::gN(*obs[j]).size()) return "ub";
+      for (auto& kv : Peek::Eg(*obs[j])) if (kv.second >= Peek::gE(*obs[j]).size()) return "ub";
+      for (auto& kv : Peek::Ni(*obs[j])) if (Peek::Ng(*obs[j]).count(kv.first) && kv.second >= Peek::iN(*obs[j]).size()) return "ub";
+      for (auto& kv : Peek::Ei(*obs[j])) if (Peek::Eg(*obs[j]).count(kv.first) && kv.second >= Peek::iE(*obs[j]).size()) return "ub";
+      obs[k].reset();
+      obs[k].reset(new Obs(*obs[j]));
+      // the copy owns new objects: rebuild the pool of observer k by label, and check independence
+      bool indep = true, shared = obs[k]->getGraph().get() == g.get();
+      for (int i = 0; i < POOL; ++i) { np[k][i].reset(new NObj(i)); ep[k][i].reset(new EObj(i)); }
+      for (auto& kv : Peek::Ng(*obs[k])) { int l = kv.first->label; if (kv.first == np[j][l]) indep = false; np[k][l] = kv.first; }
+      for (auto& kv : Peek::Eg(*obs[k])) { int l = kv.first->label; if (kv.first == ep[j][l]) indep = false; ep[k][l] = kv.first; }
+      return std::string("ok indep ") + B(indep) + " shared " + B(shared);
+    }
+    if (k < 0 || k >= NOBS || !obs[k]) return "ub";
+    Obs& o = *obs[k];
+    const Obs& c = o;
+    if (op == "o.drop") { if (k == 0) return "ub"; obs[k].reset(); return "ok"; }
+    if (op == "o.createNode") { o.createNode(N(k, lbl(t[2]))); return "ok"; }
+    if (op == "o.createNodeFrom") { o.createNode(N(k, lbl(t[2])), N(k, lbl(t[3])), E(k, lbl(t[4]))); return "ok"; }
+    if (op == "o.link") { o.link(N(k, lbl(t[2])), N(k, lbl(t[3])), E(k, lbl(t[4]))); return "ok"; }
+    if (op == "o.unlink") { o.unlink(N(k, lbl(t[2])), N(k, lbl(t[3]))); return "ok"; }
+    if (op == "o.deleteNode") { o.deleteNode(N(k, lbl(t[2]))); return "ok"; }
+    if (op == "o.associateNode") { o.associateNode(N(k, lbl(t[2])), (unsigned)toU(t[3])); return "ok"; }
+    if (op == "o.associateEdge") { o.associateEdge(E(k, lbl(t[2])), (unsigned)toU(t[3])); return "ok"; }
+    if (op == "o.dissociateNode") { o.dissociateNode(N(k, lbl(t[2]))); return "ok"; }
+    if (op == "o.dissociateEdge") { o.dissociateEdge(E(k, lbl(t[2]))); return "ok"; }
+    if (op == "o.setNodeIndex") return U(o.setNodeIndex(N(k, lbl(t[2])), (unsigned)toU(t[3])));
+    if (op == "o.addNodeIndex") return U(o.addNodeIndex(N(k, lbl(t[2]))));
+    if (op == "o.setEdgeIndex") return U(o.setEdgeIndex(E(k, lbl(t[2])), (unsigned)toU(t[3])));
+    if (op == "o.addEdgeIndex") return U(o.addEdgeIndex(E(k, lbl(t[2]))));
+    if (op == "o.setEdgeLinking") { o.setEdgeLinking(N(k, lbl(t[2])), N(k, lbl(t[3])), E(k, lbl(t[4]))); return "ok"; }
+    // ---- queries
+    if (op == "o.qn") {
+      NP a = N(k, lbl(t[2]));
+      std::string s;
+      s += "has " + B(c.hasNode(a)) + " gid " + q([&] { return U(c.getNodeGraphid(a)) + " "; });
+      s += "idx " + B(c.hasNodeIndex(a)) + " " + q([&] { return U(c.getNodeIndex(a)) + " "; });
+      s += "on " + q([&] { return labs(c.getOutgoingNeighbors(a)); }) + "in " + q([&] { return labs(c.getIncomingNeighbors(a)); });
+      s += "nb " + q([&] { return labs(c.getNeighbors(a)); });
+      s += "oe " + q([&] { return labs(c.getOutgoingEdges(a)); }) + "ie " + q([&] { return labs(c.getIncomingEdges(a)); });
+      s += "ed " + q([&] { return labs(c.getEdges(a)); });
+      s += "dg " + q([&] { return U(c.getDegree(a)) + " "; }) + "lf " + q([&] { return B(c.isLeaf(a)) + " "; });
+      if (staleGid(o, a)) s += "it ub ";
+      else s += "it " + q([&] { return oiter(c.outgoingNeighborNodesIterator(a)) + "/ " + oiter(c.incomingNeighborNodesIterator(a)) + "/ "
+          + oiter(c.outgoingEdgesIterator(a)) + "/ " + oiter(c.incomingEdgesIterator(a)) + "/ "
+          + oiter(o.outgoingNeighborNodesIterator(a)) + "/ " + oiter(o.incomingNeighborNodesIterator(a)) + "/ "
+          + oiter(o.outgoingEdgesIterator(a)) + "/ " + oiter(o.incomingEdgesIterator(a)); });
+      return s;
+    }
+    if (op == "o.qe") {
+      EP e = E(k, lbl(t[2]));
+      return "has " + B(c.hasEdge(e)) + " gid " + q([&] { return U(c.getEdgeGraphid(e)) + " "; })
+        + "idx " + B(c.hasEdgeIndex(e)) + " " + q([&] { return U(c.getEdgeIndex(e)) + " "; })
+        + "nodes " + q([&] { auto p = c.getNodes(e); return lab(p.first) + " " + lab(p.second) + " "; });
+    }
+    if (op == "o.qp") {
+      NP a = N(k, lbl(t[2])), b = N(k, lbl(t[3]));
+      return "linking " + q([&] { return lab(c.getEdgeLinking(a, b)) + " "; });
+    }
+    if (op == "o.qg") {
+      std::string s;
+      s += "nodes " + labs(c.getAllNodes()) + "edges " + labs(c.getAllEdges());
+      s += "leaves " + q([&] { return labs(c.getAllLeaves()); }) + "inner " + q([&] { return labs(c.getAllInnerNodes()); });
+      s += "cnt " + U(c.getNumberOfNodes()) + " " + U(c.getNumberOfEdges()) + " " + q([&] { return U(c.getNumberOfLeaves()) + " "; });
+      s += "itn " + oiter(c.allNodesIterator()) + "/ " + oiter(o.allNodesIterator()) + "ite " + oiter(c.allEdgesIterator()) + "/ " + oiter(o.allEdgesIterator());
+      s += "nidx " + q([&] { return list(c.getAllNodesIndexes()); }) + "eidx " + q([&] { return list(c.getAllEdgesIndexes()); });
+      s += "lidx " + q([&] { return list(c.getAllLeavesIndexes()); }) + "iidx " + q([&] { return list(c.getAllInnerNodesIndexes()); });
+      return s;
+    }
+    if (op == "o.qi") {
+      unsigned i = (unsigned)toU(t[2]);
+      std::string s;
+      s += "hn " + B(c.hasNode(i)) + " n " + q([&] { return lab(c.getNode(i)) + " "; });
+      s += "he " + B(c.hasEdge(i)) + " e " + q([&] { return lab(c.getEdge(i)) + " "; });
+      s += "oni " + q([&] { return list(c.getOutgoingNeighbors(i)); }) + "ini " + q([&] { return list(c.getIncomingNeighbors(i)); });
+      s += "oei " + q([&] { return list(c.getOutgoingEdges(i)); }) + "lfi " + q([&] { return B(c.isLeaf(i)) + " "; });
+      return s;
+    }
+    return "bad-op";
+  }
+
   std::string op(const Toks& t) {
     std::string r;
-    try { r = graphOp(t); }
+    try { r = t[0].compare(0, 2, "o.") == 0 ? obsOp(t) : graphOp(t); }
     catch (Exception&) { r = "exc:bpp"; }
     catch (std::exception&) { r = "exc:std"; }
     return r + " ; " + state();
